@@ -13,15 +13,23 @@ Modelled after (function by function, current /repo):
   `Quantity.ConvertScalarValue` (also for a `to_unit` that is not a string);
 * `__eq__` of the four classes and of `Quantity`/`FractionValue` (with Python's rule that the
   reflected method of a subclass is tried first), `Scalar.__repr__` and the reading back of the
-  text it produces (a single-quoted literal without escapes).
+  text it produces (a single-quoted literal without escapes);
+* `ObtainQuantity(unit, category, unknown_unit_caption)` with its third argument, the branch for a
+  dict of composing units (derived quantities, `Quantity.CreateEmpty()`), `units.GetUnknownQuantity`,
+  `Quantity.__eq__` (composing map and caption), `CreateEmptyScalar` / `CreateEmptyArray`;
+* histories on a private `UnitDatabase()`: registrations (`Barril/Model/Reg.lean`) interleaved with
+  `GetDefaultCategory` questions and groups of construction forms; every question is answered from
+  the current registry alone (`hstep`).
 
 Python values that can reach these functions are `PyVal`s: `None`, strings, finite numbers,
-lists/tuples/1-d ndarrays of those, `FractionValue`s and simple `Quantity`s.  A string argument
+lists/tuples/1-d ndarrays of those, `FractionValue`s and `Quantity`s (simple ones with or without
+an unknown-unit caption, derived ones, the empty one).  A string argument
 carries `float(s)` (computed by the harness) because `Scalar`/`FractionScalar` call `float` on their
 value.  Memo tables (`quantities_cache`, `_category_unit_valid`) only replay results on a database
 that is not edited and are left out (C15 is about them).
 -/
 import Barril.Model.Conv
+import Barril.Model.Reg
 
 namespace Barril.Ctor
 open Barril
@@ -52,11 +60,39 @@ deriving DecidableEq, Repr
 inductive SeqKind | list | tuple | nda
 deriving DecidableEq, Repr
 
-/-- a simple `Quantity` (no caption, not derived): what `Quantity.__eq__` compares -/
+/-- a `Quantity`.  `Quantity.__eq__` compares the composing map `_category_to_unit_and_exps` (in
+order) and the unknown-unit caption. -/
 structure Qty where
+  /-- `GetCategory()` of a simple quantity (0 for a derived one: its strings are rendered by the
+  string engine, C20, and play no role in construction or equality) -/
   cat : Sym
+  /-- `GetUnit()` of a simple quantity (0 for a derived one) -/
   unit : Sym
+  /-- `_unknown_unit_caption`; 0 = `""` (also what `None` is stored as) -/
+  caption : Sym
+  /-- `some items` for a derived quantity (`_is_derived`): the composing map, (category, unit,
+  exponent) in order; `some []` is `Quantity.CreateEmpty()` -/
+  comp : Option (List (Sym × Sym × Int))
 deriving DecidableEq, Repr
+
+/-- the simple quantity `Quantity(category, unit)` without caption -/
+def Qty.simple (c u : Sym) : Qty := ⟨c, u, 0, Option.none⟩
+
+def Qty.withCaption (q : Qty) (cap : Sym) : Qty := ⟨q.cat, q.unit, cap, q.comp⟩
+
+/-- `Quantity.CreateEmpty()` -/
+def Qty.empty : Qty := ⟨0, 0, 0, some []⟩
+
+def Qty.isDerived (q : Qty) : Bool := q.comp.isSome
+
+/-- `tuple(self._category_to_unit_and_exps.items())` -/
+def Qty.items (q : Qty) : List (Sym × Sym × Int) :=
+  match q.comp with
+  | some l => l
+  | Option.none => [(q.cat, q.unit, 1)]
+
+/-- `Quantity.__eq__` -/
+def Qty.pyEq (a b : Qty) : Bool := a.items == b.items && a.caption == b.caption
 
 inductive PyVal
   | atom (a : Atom)
@@ -212,23 +248,39 @@ def checkedUnit (db : Db) (c u : Sym) : Except ErrKind Sym :=
     else .error .units
   else .error .units
 
+/-- the first step of `Quantity.__init__`: the caption is `None` (stored as `""`) or must be a `str`
+(`assert unknown_unit_caption.__class__ == str`) -/
+def capOf : Atom → Except ErrKind Sym
+  | .none => .ok 0
+  | .str s _ => .ok s
+  | _ => .error .assertion
+
 /-- the last step of `Quantity.__init__`: `GetInfo(quantity_type, unit, fix_unknown=True).tobase` -/
-def finishQuantity (db : Db) (ci : CatRow) (c u : Sym) : Except ErrKind Qty :=
+def finishQuantityC (db : Db) (ci : CatRow) (c u cp : Sym) : Except ErrKind Qty :=
   match db.getInfo ci.qtype u true with
-  | .ok _ => .ok ⟨c, u⟩
+  | .ok _ => .ok ⟨c, u, cp, Option.none⟩
   | .error e => .error e
 
-/-- simple branch of `Quantity.__init__(category, unit)` with a string unit -/
-def newQuantity (db : Db) (category : Atom) (u : Sym) : Except ErrKind Qty :=
-  match category with
-  | .str c _ =>
-    match db.catByName c with
-    | Option.none => .error .units
-    | some ci =>
-      match checkedUnit db c u with
-      | .error e => .error e
-      | .ok u' => finishQuantity db ci c u'
-  | _ => .error .type                           -- "Only str is accepted"
+def finishQuantity (db : Db) (ci : CatRow) (c u : Sym) : Except ErrKind Qty := finishQuantityC db ci c u 0
+
+/-- simple branch of `Quantity.__init__(category, unit, unknown_unit_caption)` with a string unit:
+the caption is looked at first -/
+def newQuantityC (db : Db) (category : Atom) (u : Sym) (cap : Atom) : Except ErrKind Qty :=
+  match capOf cap with
+  | .error e => .error e
+  | .ok cp =>
+    match category with
+    | .str c _ =>
+      match db.catByName c with
+      | Option.none => .error .units
+      | some ci =>
+        match checkedUnit db c u with
+        | .error e => .error e
+        | .ok u' => finishQuantityC db ci c u' cp
+    | _ => .error .type                           -- "Only str is accepted"
+
+/-- `Quantity(category, unit)` -/
+def newQuantity (db : Db) (category : Atom) (u : Sym) : Except ErrKind Qty := newQuantityC db category u .none
 
 def optAtom : Option Sym → Atom
   | some c => .str c Option.none
@@ -239,17 +291,20 @@ def falsy : Option Sym → Bool
   | some c => c == 0
   | Option.none => true
 
-/-- `ObtainQuantity(unit)` without a category, string unit -/
-def obtainDefault (db : Db) (u : Sym) : Except ErrKind Qty :=
+/-- `ObtainQuantity(unit, None, caption)`, string unit -/
+def obtainDefaultC (db : Db) (u : Sym) (cap : Atom) : Except ErrKind Qty :=
   match getDefaultCategory db u with
   | .error e => .error e
   | .ok c =>
-    if !falsy c then newQuantity db (optAtom c) u
+    if !falsy c then newQuantityC db (optAtom c) u cap
     else if isLegacy db.legacy u then
       match getDefaultCategory db (fixLegacy db.legacy u) with
       | .error e => .error e
-      | .ok c' => newQuantity db (optAtom c') (fixLegacy db.legacy u)
+      | .ok c' => newQuantityC db (optAtom c') (fixLegacy db.legacy u) cap
     else .error .units
+
+/-- `ObtainQuantity(unit)` without a category, string unit -/
+def obtainDefault (db : Db) (u : Sym) : Except ErrKind Qty := obtainDefaultC db u .none
 
 /-- `ObtainQuantity` with a list/tuple unit: `len(unit) == 1 and unit[0][1] == 1` can only fail or
 be false for the items considered here, and the other branch asserts a list/tuple category -/
@@ -263,45 +318,102 @@ def obtainSeqErr : List Atom → ErrKind
   | _ => .assertion
 
 /-- `ObtainQuantity` with a unit that is not a string: "unit is given by the category" -/
-def obtainNonStr (db : Db) (category : Atom) : Except ErrKind Qty :=
+def obtainNonStrC (db : Db) (category cap : Atom) : Except ErrKind Qty :=
   match category with
   | .none => .error .assertion
   | c =>
     match getCategoryInfo db c with            -- GetDefaultUnit
     | .error e => .error e
-    | .ok ci => newQuantity db c ci.defaultUnit
+    | .ok ci => newQuantityC db c ci.defaultUnit cap
 
-/-- `ObtainQuantity(unit, category)` once the unit is a plain value (every atom is hashable, so the
-cache key can be built) -/
-def obtainAtom (db : Db) (unit category : Atom) : Except ErrKind Qty :=
+def obtainNonStr (db : Db) (category : Atom) : Except ErrKind Qty := obtainNonStrC db category .none
+
+/-- `ObtainQuantity(unit, category, caption)` once the unit is a plain value (every atom is hashable,
+so the cache key `(category, unit, caption)` can be built) -/
+def obtainAtomC (db : Db) (unit category cap : Atom) : Except ErrKind Qty :=
   match unit with
   | .str u _ =>
     match category with
-    | .none => obtainDefault db u
-    | c => newQuantity db c u
-  | _ => obtainNonStr db category
+    | .none => obtainDefaultC db u cap
+    | c => newQuantityC db c u cap
+  | _ => obtainNonStrC db category cap
+
+def obtainAtom (db : Db) (unit category : Atom) : Except ErrKind Qty := obtainAtomC db unit category .none
 
 /-- `ObtainQuantity` with a list/tuple of tuples as unit (the "composing units" form
 `[(unit, exponent), …]`): a single pair with exponent 1 is "a simple case" and stands for its first
 component; anything else needs a list/tuple category, which the constructors never pass -/
-def obtainRows (db : Db) (rows : List (List Atom)) (category : Atom) : Except ErrKind Qty :=
+def obtainRowsC (db : Db) (rows : List (List Atom)) (category cap : Atom) : Except ErrKind Qty :=
   match rows with
   | [row] =>
     match row with
-    | a :: b :: _ => if atomEq b (.num 1 false) then obtainAtom db a category else .error .assertion
+    | a :: b :: _ => if atomEq b (.num 1 false) then obtainAtomC db a category cap else .error .assertion
     | _ => .error .index                         -- `unit[0][1]`
   | _ => .error .assertion
 
-/-- `ObtainQuantity(unit, category)` -/
-def obtainQuantity (db : Db) (unit : PyVal) (category : Atom) : Except ErrKind Qty :=
+def obtainRows (db : Db) (rows : List (List Atom)) (category : Atom) : Except ErrKind Qty :=
+  obtainRowsC db rows category .none
+
+/-- `ObtainQuantity(unit, category, unknown_unit_caption)` (the caption is `None`, a string or a
+number) -/
+def obtainQuantityC (db : Db) (unit : PyVal) (category cap : Atom) : Except ErrKind Qty :=
   match unit with
   | .seq .list items => .error (obtainSeqErr items)
   | .seq .tuple items => .error (obtainSeqErr items)
-  | .rows .list rows => obtainRows db rows category
-  | .rows .tuple rows => obtainRows db rows category
-  | .atom a => obtainAtom db a category
+  | .rows .list rows => obtainRowsC db rows category cap
+  | .rows .tuple rows => obtainRowsC db rows category cap
+  | .atom a => obtainAtomC db a category cap
   | v => if !v.hashable then .error .type       -- the cache key
-         else obtainNonStr db category
+         else obtainNonStrC db category cap
+
+/-- `ObtainQuantity(unit, category)` -/
+def obtainQuantity (db : Db) (unit : PyVal) (category : Atom) : Except ErrKind Qty :=
+  obtainQuantityC db unit category .none
+
+/-- the checks `ObtainQuantity` makes for a dict of composing units (on a miss of the cache; a hit
+replays an earlier success): every category is registered (`GetCategoryQuantityType`) and its unit
+belongs to its quantity type (`CheckQuantityTypeUnit`) -/
+def checkItems (db : Db) : List (Sym × Sym × Int) → Except ErrKind Unit
+  | [] => .ok ()
+  | (c, u, _) :: rest =>
+    match db.catByName c with
+    | Option.none => .error .units
+    | some ci =>
+      match db.checkQuantityTypeUnit ci.qtype u with
+      | .error e => .error e
+      | .ok () => checkItems db rest
+
+/-- one entry with exponent 1: "Although passed as composing, it's a simple case" -/
+def simpleItem : List (Sym × Sym × Int) → Option (Sym × Sym)
+  | [(c, u, e)] => if e == 1 then some (c, u) else Option.none
+  | _ => Option.none
+
+/-- `ObtainQuantity(OrderedDict((category, [unit, exponent]) …), None, caption)`: a single entry with
+exponent 1 is the simple quantity of that category and unit; anything else (no entry at all
+included: `Quantity.CreateEmpty()`) is a derived quantity, whose caption `Quantity.__init__` looks at
+after the checks -/
+def obtainDict (db : Db) (items : List (Sym × Sym × Int)) (cap : Atom) : Except ErrKind Qty :=
+  match simpleItem items with
+  | some (c, u) => newQuantityC db (.str c Option.none) u cap
+  | Option.none =>
+    match checkItems db items with
+    | .error e => .error e
+    | .ok () =>
+      match capOf cap with
+      | .error e => .error e
+      | .ok cp => .ok ⟨0, 0, cp, some items⟩
+
+/-- `if unknown_caption:` -/
+def Atom.truthyStr : Atom → Bool
+  | .str s _ => s != 0
+  | _ => false
+
+/-- `units.GetUnknownQuantity(unknown_caption)` (caption `None` or a string): with a non-empty
+caption `ObtainQuantity('<unknown>', 'Unknown', caption)`, otherwise the module constant
+`UNKNOWN_QUANTITY = ObtainQuantity('<unknown>', 'Unknown')` -/
+def unknownQuantity (db : Db) (cap : Atom) : Except ErrKind Qty :=
+  if cap.truthyStr then obtainQuantityC db (.atom (.str unknownUnit Option.none)) (.str unknownQType Option.none) cap
+  else obtainQuantity db (.atom (.str unknownUnit Option.none)) (.str unknownQType Option.none)
 
 /-- `Quantity.ConvertScalarValue(value, to_unit)` of the simple quantity `q` of type `qt` -/
 def convertScalarValue (db : Db) (q : Qty) (qt : Sym) (x : Rat) (toUnit : PyVal) : Except ErrKind Rat :=
@@ -369,17 +481,25 @@ def defaultValue (db : Db) (cls : Cls) (ci : CatRow) (unit : PyVal) : Except Err
     | .ok x => .ok (.num x)
     | .error e => .error e
 
-/-- `quantity.GetCategoryInfo()` -/
+/-- `quantity.GetCategoryInfo()` of a simple quantity -/
 def qtyInfo (db : Db) (q : Qty) : Except ErrKind CatRow :=
   match db.catByName q.cat with
   | some ci => .ok ci
   | Option.none => .error .other
 
+/-- `Scalar._GetDefaultValue(quantity.GetCategoryInfo())`: a derived quantity has no category info
+(`None`), and `except AttributeError: return 0.0` -/
+def scalarDefaultOf (db : Db) (q : Qty) : Except ErrKind Rat :=
+  if q.isDerived then .ok 0 else
+  match qtyInfo db q with
+  | .ok ci => .ok ci.defaultValue
+  | .error e => .error e
+
 /-- `Scalar._InternalCreateWithQuantity(quantity, value)` -/
 def scalarInternal (db : Db) (q : Qty) (value : PyVal) : Except ErrKind Obj :=
   if value.isNone then
-    match qtyInfo db q with
-    | .ok ci => .ok ⟨q, .scalar ci.defaultValue⟩
+    match scalarDefaultOf db q with
+    | .ok x => .ok ⟨q, .scalar x⟩
     | .error e => .error e
   else
     match pyFloat value with
@@ -510,16 +630,28 @@ def initNamed (db : Db) (cls : Cls) (category : Atom) (value unit : PyVal) : Exc
     | .error e => .error e
     | .ok q => internalCreate db cls q value
 
-/-- the Quantity-first branch of the shared `__init__` -/
+/-- `self._GetDefaultValue(quantity.GetCategoryInfo())`: the category info of a derived quantity is
+`None`, which only FractionScalar's method trips over (`AttributeError`) -/
+def defaultOfQuantity (db : Db) (cls : Cls) (q : Qty) : Except ErrKind PyVal :=
+  if q.isDerived then
+    match cls with
+    | .scalar => .ok (.num 0)
+    | .fraction => .error .other
+    | .array => .ok (.seq .list [])
+    | .fixed d => .ok (.seq .list (List.replicate d.toNat (.num 0 false)))
+  else
+    match qtyInfo db q with
+    | .error e => .error e
+    | .ok ci => defaultValue db cls ci .none
+
+/-- the Quantity-first branch of the shared `__init__`: the object is built on the very quantity
+that was given -/
 def initQuantity (db : Db) (cls : Cls) (q : Qty) (value : PyVal) (unit : Atom) : Except ErrKind Obj :=
   if !unit.isNone then .error .assertion else
   if value.isNone then
-    match qtyInfo db q with
+    match defaultOfQuantity db cls q with
     | .error e => .error e
-    | .ok ci =>
-      match defaultValue db cls ci .none with
-      | .error e => .error e
-      | .ok v => internalCreate db cls q v
+    | .ok v => internalCreate db cls q v
   else internalCreate db cls q value
 
 /-- `AbstractValueWithQuantityObject.__init__(self, category, value, unit)` -/
@@ -552,22 +684,23 @@ def construct (db : Db) (cls : Cls) (a1 a2 : PyVal) (a3 : Atom) : Except ErrKind
 
 /-! ### equality -/
 
-/-- `Array.__eq__(self, other)` once `other` is known to be an Array; the two quantities and units
-are compared after the values -/
+/-- `Array.__eq__(self, other)` once `other` is known to be an Array; the two quantities are compared
+after the values (the clause `self.unit == other.unit` that follows adds nothing: `GetUnit()` is a
+function of the composing map) -/
 def arrayEq (q1 : Qty) (v1 : PyVal) (q2 : Qty) (v2 : PyVal) : Except ErrKind Bool :=
   match pyTuple v1 with
   | .error e => .error e
   | .ok t1 =>
     match pyTuple v2 with
     | .error e => .error e
-    | .ok t2 => .ok (elemsEq t1 t2 && q1 == q2 && q1.unit == q2.unit)
+    | .ok t2 => .ok (elemsEq t1 t2 && q1.pyEq q2)
 
 /-- `a == b` for two value objects.  `FixedArray` is a subclass of `Array` that overrides `__eq__`,
 so for `Array == FixedArray` Python asks the FixedArray first (and gets `False`). -/
 def Obj.eq (a b : Obj) : Except ErrKind Bool :=
   match a.val, b.val with
-  | .scalar x, .scalar y => .ok (x == y && a.q == b.q)
-  | .fraction n f, .fraction m g => .ok (n == m && f == g && a.q == b.q)
+  | .scalar x, .scalar y => .ok (x == y && a.q.pyEq b.q)
+  | .fraction n f, .fraction m g => .ok (n == m && f == g && a.q.pyEq b.q)
   | .arr v, .arr w => arrayEq a.q v b.q w
   | .fixed v d, .fixed w e =>
     match arrayEq a.q v b.q w with
@@ -622,11 +755,136 @@ def evalScalarRepr (db : Db) (r : ScalarRepr) : Except ErrKind Obj :=
     construct db .scalar (.num r.value) (.str (Sym.ofBytes u)) (.str (Sym.ofBytes c) Option.none)
   | _, _ => .error .other
 
-/-- `eval(repr(o))` for a Scalar -/
+/-- `eval(repr(o))` for a Scalar with a simple quantity (the text shows unit and category, never
+the caption) -/
 def reprBack (db : Db) (o : Obj) : Option (Except ErrKind Obj) :=
+  if o.q.isDerived then Option.none else
   match o.val with
   | .scalar v => some (evalScalarRepr db (scalarRepr o.q v))
   | _ => Option.none
+
+/-! ### the class methods for objects without unit -/
+
+/-- `Scalar.CreateEmptyScalar(value)`, `Array.CreateEmptyArray(values)`,
+`FixedArray.CreateEmptyArray(dimension, values)`: `CreateWithQuantity(Quantity.CreateEmpty(), …)` with
+the value passed by keyword (`values=None` stands for `[]`, resp. `[0.0] * dimension`);
+FractionScalar has no such method (`AttributeError`) -/
+def createEmpty (db : Db) (cls : Cls) (v : PyVal) : Except ErrKind Obj :=
+  match cls with
+  | .scalar => scalarInternal db Qty.empty v
+  | .array => arrayInternal Qty.empty (if v.isNone then .seq .list [] else v) .none
+  | .fixed d =>
+    fixedInternal Qty.empty (if v.isNone then .seq .list (List.replicate d.toNat (.num 0 false)) else v) .none
+      Option.none (some d)
+  | .fraction => .error .other
+
+/-! ### construction calls as data, and histories on a private database -/
+
+/-- an argument expression of a construction call: a plain value, or a call that obtains a Quantity
+from the current database (evaluating it may raise) -/
+inductive QExpr
+  | val (v : PyVal)
+  /-- `ObtainQuantity(unit, category, caption)` -/
+  | oq (unit : PyVal) (category cap : Atom)
+  /-- `ObtainQuantity(OrderedDict(…), None, caption)` -/
+  | dq (items : List (Sym × Sym × Int)) (cap : Atom)
+  /-- `units.GetUnknownQuantity(caption)` -/
+  | unk (cap : Atom)
+deriving DecidableEq, Repr
+
+def QExpr.eval (db : Db) : QExpr → Except ErrKind PyVal
+  | .val v => .ok v
+  | .oq u c cap =>
+    match obtainQuantityC db u c cap with
+    | .ok q => .ok (.qty q)
+    | .error e => .error e
+  | .dq items cap =>
+    match obtainDict db items cap with
+    | .ok q => .ok (.qty q)
+    | .error e => .error e
+  | .unk cap =>
+    match unknownQuantity db cap with
+    | .ok q => .ok (.qty q)
+    | .error e => .error e
+
+inductive CallKind
+  /-- `Cls(a1, a2, a3)` -/
+  | ctor
+  /-- `Cls.CreateWithQuantity(a1, a2)` / `(a1, value=a2)` / `(…, dimension=d)` -/
+  | cwq
+  /-- `Cls.CreateEmptyScalar(a1)` / `Cls.CreateEmptyArray([dimension,] a1)` -/
+  | empty
+deriving DecidableEq, Repr
+
+structure Call where
+  kind : CallKind
+  cls : Cls
+  a1 : QExpr
+  a2 : QExpr
+  a3 : Atom
+  kw : Bool
+  dimKw : Option Int
+deriving DecidableEq, Repr
+
+/-- one construction call on the database as it is now: the arguments are evaluated left to right,
+then the class is called.  `none`: not modelled (`CreateWithQuantity` on something that is no
+Quantity). -/
+def runCall (db : Db) (f : Call) : Option (Except ErrKind Obj) :=
+  match f.a1.eval db with
+  | .error e => some (.error e)
+  | .ok a1 =>
+    match f.a2.eval db with
+    | .error e => some (.error e)
+    | .ok a2 =>
+      match f.kind with
+      | .ctor => some (construct db f.cls a1 a2 f.a3)
+      | .empty => some (createEmpty db f.cls a1)
+      | .cwq =>
+        match a1 with
+        | .qty q => some (createWithQuantity db f.cls q a2 f.kw f.dimKw)
+        | _ => Option.none
+
+/-- the database a registry is: the rows in the iteration order of `quantity_types`, the categories
+in registration order (the flat view the translator reads off a real database) -/
+def dbOf (lg : List (Sym × Sym)) (r : Reg.Registry) : Db := ⟨r.allRows, r.cats, lg⟩
+
+/-- one step of a history on a private database: a registration, a `GetDefaultCategory(unit)`
+question, or a group of construction calls -/
+inductive HOp
+  | reg (op : Reg.RegOp)
+  | defcat (u : Sym)
+  | calls (cs : List Call)
+deriving DecidableEq, Repr
+
+inductive HOut
+  | reg (o : Except ErrKind Reg.Out)
+  | defcat (r : Except ErrKind (Option Sym))
+  | calls (rs : List (Option (Except ErrKind Obj)))
+deriving DecidableEq, Repr
+
+def HOp.isQuery : HOp → Bool
+  | .reg _ => false
+  | _ => true
+
+/-- questions and construction calls read the registry as it is and leave it alone -/
+def hstep (lg : List (Sym × Sym)) (r : Reg.Registry) : HOp → Reg.Registry × HOut
+  | .reg op => ((Reg.step lg r op).1, .reg (Reg.step lg r op).2)
+  | .defcat u => (r, .defcat (getDefaultCategory (dbOf lg r) u))
+  | .calls cs => (r, .calls (cs.map (runCall (dbOf lg r))))
+
+def hrun (lg : List (Sym × Sym)) (r : Reg.Registry) : List HOp → Reg.Registry
+  | [] => r
+  | op :: ops => hrun lg (hstep lg r op).1 ops
+
+def houts (lg : List (Sym × Sym)) (r : Reg.Registry) : List HOp → List HOut
+  | [] => []
+  | op :: ops => (hstep lg r op).2 :: houts lg (hstep lg r op).1 ops
+
+/-- the registrations of a history -/
+def regsOf : List HOp → List Reg.RegOp
+  | [] => []
+  | .reg op :: ops => op :: regsOf ops
+  | _ :: ops => regsOf ops
 
 end Barril.Ctor
 
